@@ -38,12 +38,15 @@ type Op struct {
 // source-node and destination-node streams of two inter-node flows (two goroutines touch each of
 // those flows), streams 4 and 5 an intra-node and a to-external flow.
 type Case struct {
-	Mode     string   `json:"mode"`
-	Workers  int      `json:"workers"`
-	Procs    int      `json:"gomaxprocs"`
-	Streams  [][]int  `json:"streams"`
-	PausesUs []int    `json:"pauses_us"`
-	Aux      [][]Op   `json:"aux"`
+	Mode     string  `json:"mode"`
+	Workers  int     `json:"workers"`
+	Procs    int     `json:"gomaxprocs"`
+	Streams  [][]int `json:"streams"`
+	PausesUs []int   `json:"pauses_us"`
+	Aux      [][]Op  `json:"aux"`
+	// Verbose: the process-wide log verbosity is 5 while the program runs (the library has
+	// V(4)/V(5) blocks on its worker and aggregation paths; output is discarded)
+	Verbose bool `json:"verbose,omitempty"`
 }
 
 var rec *ev.Recorder
@@ -53,6 +56,9 @@ func TestMain(m *testing.M) {
 	glue.LoadRegistry()
 	intermediate.MaxRetries = 1 << 30
 	if rp := ev.LoadReplay(); rp != nil {
+		if rp.Phase == "burst" {
+			ev.RunReplay(rp, runBurst)
+		}
 		if rp.Phase == "linearizability" || rp.Phase == "race_lin" {
 			ev.RunReplay(rp, runLin)
 		}
@@ -123,6 +129,10 @@ func sideFields(m map[string]interface{}, src bool) (dlt [4]uint64, tot [4]uint6
 func runCase(c Case) (*ev.Failure, bool) {
 	if c.Procs > 0 {
 		defer runtime.GOMAXPROCS(runtime.GOMAXPROCS(c.Procs))
+	}
+	if c.Verbose {
+		glue.SetKlogVerbosity(5)
+		defer glue.SetKlogVerbosity(0)
 	}
 	fl := flows()
 	ch := make(chan *entities.Message)
@@ -440,6 +450,7 @@ func runCase(c Case) (*ev.Failure, bool) {
 func genCase(t *rapid.T) Case {
 	c := Case{Mode: rapid.SampledFrom([]string{"direct", "direct", "pool"}).Draw(t, "mode"), Workers: rapid.IntRange(1, 8).Draw(t, "workers"),
 		Procs: rapid.SampledFrom([]int{2, 4, 16}).Draw(t, "procs")}
+	c.Verbose = rapid.IntRange(0, 3).Draw(t, "verbose") == 0
 	for s := 0; s < 6; s++ {
 		var recs []int
 		n := rapid.IntRange(0, 25).Draw(t, "nrec")
@@ -465,7 +476,124 @@ func genCase(t *rapid.T) Case {
 	return c
 }
 
+// runBurst: n flows ingested by 8 goroutines while two others query; then every flow's inactive
+// deadline passes and three goroutines scan concurrently: every flow is handed to the callback
+// exactly once, no scan fails, nothing stays behind.
+func runBurst(n int) *ev.Failure {
+	var fl []aggh.FlowDef
+	for i := 0; i < n; i++ {
+		fl = append(fl, aggh.FlowDef{Src: fmt.Sprintf("10.%d.%d.%d", 1+i/65536, (i/256)%256, i%256), Dst: "10.0.1.2", SPort: 1000, DPort: 80, Proto: 6, Kind: aggh.KindIntraNode})
+	}
+	keyToFlow := map[intermediate.FlowKey]int{}
+	for i, f := range fl {
+		keyToFlow[f.Key()] = i
+	}
+	ap := aggh.New(10*time.Hour, 3*time.Hour, nil, 1)
+	var fail atomic.Pointer[ev.Failure]
+	var wg sync.WaitGroup
+	stopQ := make(chan struct{})
+	for g := 0; g < 8; g++ {
+		wg.Add(1)
+		go func(g int) {
+			defer wg.Done()
+			for i := g; i < n; i += 8 {
+				r := aggh.Rec{Flow: i, Side: "S", Start: 1000, End: 2000, Tot: [4]uint64{1, 2, 1, 2}, Dlt: [4]uint64{1, 1, 1, 1}}
+				if err := ap.AggregateMsgByFlowKey(aggh.Message(fl, r)); err != nil {
+					fail.CompareAndSwap(nil, ev.Failf("AggregateMsgByFlowKey(flow %d): %v", i, err))
+					return
+				}
+			}
+		}(g)
+	}
+	var qg sync.WaitGroup
+	for g := 0; g < 2; g++ {
+		qg.Add(1)
+		go func() {
+			defer qg.Done()
+			for {
+				select {
+				case <-stopQ:
+					return
+				default:
+				}
+				ap.GetNumFlows()
+				ap.GetExpiryFromExpirePriorityQueue()
+				if err := ap.ForAllExpiredFlowRecordsDo(func(k intermediate.FlowKey, _ *intermediate.AggregationFlowRecord) error {
+					fail.CompareAndSwap(nil, ev.Failf("flow %+v handed to the expiry callback although no deadline has passed", k))
+					return nil
+				}); err != nil {
+					fail.CompareAndSwap(nil, ev.Failf("scan while flows arrive: %v", err))
+				}
+			}
+		}()
+	}
+	wg.Wait()
+	close(stopQ)
+	qg.Wait()
+	if f := fail.Load(); f != nil {
+		return f
+	}
+	if got := ap.GetNumFlows(); int(got) != n {
+		return ev.Failf("%d distinct flows were ingested, GetNumFlows() = %d", n, got)
+	}
+	ap.VerifShiftDeadlines(4 * time.Hour)
+	var mu sync.Mutex
+	seen := make([]int, n)
+	for g := 0; g < 3; g++ {
+		wg.Add(1)
+		go func() {
+			defer wg.Done()
+			for round := 0; round < 3; round++ {
+				if err := ap.ForAllExpiredFlowRecordsDo(func(k intermediate.FlowKey, _ *intermediate.AggregationFlowRecord) error {
+					mu.Lock()
+					seen[keyToFlow[k]]++
+					mu.Unlock()
+					return nil
+				}); err != nil {
+					fail.CompareAndSwap(nil, ev.Failf("expiry scan after the inactive deadline of all %d flows: %v", n, err))
+				}
+			}
+		}()
+	}
+	wg.Wait()
+	if f := fail.Load(); f != nil {
+		return f
+	}
+	for i, k := range seen {
+		if k != 1 {
+			return ev.Failf("flow %d of %d was handed to the expiry callback %d times for its one inactive deadline", i, n, k)
+		}
+	}
+	if got := ap.GetNumFlows(); got != 0 {
+		return ev.Failf("every flow expired by inactivity, GetNumFlows() = %d", got)
+	}
+	if q, h := ap.VerifSnapshot(); len(q) != 0 || len(h) != 0 {
+		return ev.Failf("every flow expired by inactivity, %d queue entries and %d held flows remain", len(q), len(h))
+	}
+	return nil
+}
+
 func TestC13(t *testing.T) {
+	if ev.Shard() <= 1 {
+		nb := 3000
+		if rec.Thorough() {
+			nb = 10000
+		}
+		ok := t.Run("burst", func(t *testing.T) {
+			f := runBurst(nb)
+			rec.Case(ev.Hash([]any{"burst", nb}), true, "burst_of_flows")
+			if f != nil {
+				rec.Violation("burst", nb, f.Msg)
+				t.Errorf("%s", f.Msg)
+			}
+		})
+		if !ok {
+			if rec.Violations() == 0 {
+				rec.Violation("race", nb, "the race detector reported a data race in the burst scenario (the report is in the check's output)")
+			}
+			return
+		}
+	}
 	n := rec.Scale(350, 60000)
 	g := rapid.Custom(genCase)
 	for i := 0; i < n; i++ {
@@ -478,7 +606,11 @@ func TestC13(t *testing.T) {
 				t.Errorf("%s", fail.Msg)
 			}
 		})
-		rec.Case(ev.Hash(c), overlapped, "mode_"+c.Mode, fmt.Sprintf("gomaxprocs_%d", c.Procs))
+		cl := []string{"mode_" + c.Mode, fmt.Sprintf("gomaxprocs_%d", c.Procs)}
+		if c.Verbose {
+			cl = append(cl, "log_verbosity_5")
+		}
+		rec.Case(ev.Hash(c), overlapped, cl...)
 		if i < 40 && len(c.Aux) <= 2 {
 			rec.Sample(c.Mode, c)
 		}
